@@ -208,7 +208,7 @@ def SObj.arity (o : SObj) : Nat := match o.fixed with
   | none => match o.code with | .inline ps _ => ps.length | .builtin _ => 1
 
 /-- state (heap) + exception -/
-def SM (α : Type) := SHeap → Except Err (α × SHeap)
+@[reducible] def SM (α : Type) := SHeap → Except Err (α × SHeap)
 
 instance : Monad SM where
   pure a := fun h => .ok (a, h)
@@ -350,7 +350,17 @@ def specPartial (c : SCtx) (a : Nat) (args : List (Option Expr)) : SM Seq := do
   else SM.throw .XPTY0004
 
 /-- the function argument of a higher-order function: exactly one function item -/
-def specFunArg (c : SCtx) (f : Expr) : SM Nat := do
+def specFunArg (c : SCtx) (f : Expr) : SM Nat :=
+  match f with
+  | .fnE _ ps body =>
+    -- a function expression written in argument position: its closure (evaluated in place)
+    SM.alloc { code := .inline ps body, lex := c.lex, fixed := none }
+  | _ => do
+    let v ← ev f c
+    SM.single v
+
+/-- the key function of `fn:sort` (always through the evaluator) -/
+def specFunArgE (c : SCtx) (f : Expr) : SM Nat := do
   let v ← ev f c
   SM.single v
 
@@ -460,7 +470,9 @@ def specStep (e : Expr) (c : SCtx) : SM Seq :=
       let ys ← ev s2 c
       specForEachPair (specCall ev) a xs ys
   | .sortK s f => do
-    let a ← specFunArgN ev c f 1
+    let a ← specFunArgE ev c f
+    let o ← SM.getObj a
+    if o.arity = 1 then pure () else SM.throw .XPTY0004
     let xs ← ev s c
     specSort (specCall ev) a xs
   | .apply f ms => do
